@@ -625,7 +625,10 @@ Plan(ms, sig, curModel, g, acc) ==
                  IN Plan(Tail(ms), Sim(mu, sig).sig, mu.m, g2,
                          [acc EXCEPT !.counts = Bump(@, sig[mu.m].table, g2.cnt),
                                      !.ren = IF mu.k = "RenM" THEN @ \cup {mu.dbtable} ELSE @,
-                                     !.renf = IF mu.k = "RenF" THEN @ \cup {sig[mu.m].table} ELSE @])
+                                     !.renf = IF mu.k = "RenF" THEN @ \cup {sig[mu.m].table}
+                                              \* a renamed table keeps its stale column entries
+                                              ELSE IF mu.k = "RenM" /\ sig[mu.om].table \in @
+                                              THEN @ \cup {mu.dbtable} ELSE @])
 
 (* ren / renf: tables renamed, and tables with a renamed column, so far in this
    AppMutator run -- DatabaseState keeps tracking their indexes under the old
@@ -723,8 +726,48 @@ PlanInd == PlanIndividually(seq, Sig0, Acc0)
 PlanTwo == IF Two.ok THEN PlanOf(ListMuts(Two.objs, Two.list), Sig0) ELSE Acc0
 RbOpt == PlanOpt.counts
 RbInd == PlanInd.counts
+(* a ChangeMeta naming a field the model does not have at that point is accepted by the
+   simulation but cannot be lowered (FieldDoesNotExist while generating SQL, before any
+   statement runs) *)
+RECURSIVE MetaNamesMissing(_, _)
+MetaNamesMissing(ms, sig) ==
+    IF ms = <<>> THEN FALSE
+    ELSE LET mu == Head(ms)
+             r  == Sim(mu, sig)
+             names == IF mu.prop = "unique_together" THEN UNION { SeqSet(mu.val[i]) : i \in 1..Len(mu.val) }
+                      ELSE UNION { SeqSet(mu.ival[i].fields) : i \in 1..Len(mu.ival) }
+         IN \/ /\ mu.k = "Meta" /\ mu.m \in DOMAIN sig
+               /\ ~(names \subseteq DOMAIN sig[mu.m].fields)
+            \/ (r.ok /\ MetaNamesMissing(Tail(ms), r.sig))
+
+(* an index is named after its column when it is created and keeps that name when the
+   column is renamed: adding an indexed field under the old name later wants the same name *)
+Indexed(fs) == fs.ftype \in {"FK", "O2O"} \/ Get(fs.attrs, "db_index", FALSE) = TRUE
+               \/ Get(fs.attrs, "unique", FALSE) = TRUE
+RECURSIVE IndexNameReuse(_, _, _)
+IndexNameReuse(ms, sig, freed) ==      \* freed: <<model, old field name>> of renamed indexed fields
+    IF ms = <<>> THEN FALSE
+    ELSE LET mu == Head(ms)
+             r  == Sim(mu, sig)
+             hit == mu.k = "Add" /\ <<mu.m, mu.f>> \in freed
+                    /\ Indexed(NewField(mu.ftype, mu.attrs, mu.init))
+             fr == IF mu.k = "RenF" /\ mu.m \in DOMAIN sig /\ mu.of \in DOMAIN sig[mu.m].fields
+                      /\ Indexed(sig[mu.m].fields[mu.of])
+                   THEN freed \cup {<<mu.m, mu.of>>}
+                   ELSE IF mu.k = "RenM" THEN freed \cup { <<mu.nm, p[2]>> : p \in { q \in freed : q[1] = mu.om } }
+                   ELSE freed
+         IN hit \/ (r.ok /\ IndexNameReuse(Tail(ms), r.sig, fr))
+
 (* sequences on which a known weakness of the SQLite lowering can show *)
 Hazards == PlanOpt.haz \cup PlanInd.haz \cup PlanTwo.haz
+           \cup (IF IndexNameReuse(seq, Sig0, {}) THEN {"index-name-reused-after-rename"} ELSE {})
+           \* Extend only admits ChangeMetas naming existing fields: if the OPTIMISED list has one
+           \* that does not, the optimiser removed (or renamed away) the field under it, e.g.
+           \* [AddField(h), ChangeMeta(unique_together, [(f, h)]), DeleteField(h)]
+           \cup (IF One.ok /\ MetaNamesMissing(ListMuts(One.objs, One.list), Sig0)
+                 THEN {"optimiser-removed-field-named-by-meta"} ELSE {})
+           \cup (IF Two.ok /\ MetaNamesMissing(ListMuts(Two.objs, Two.list), Sig0)
+                 THEN {"optimiser-removed-field-named-by-meta"} ELSE {})
 
 OptSameData    == One.ok => DataEq(One.sig, cur)
 TwoPassSameData == Two.ok => DataEq(Two.sig, cur)
